@@ -109,6 +109,32 @@ def check_retained(ctx, rule):
                   key=(rule, fi.qual, src(arg)), site=ctx.site(fi, x))
 
 
+    # ... and it was generated by this very IKE_SA: generate_request / handle_invalid_ke put the receiver's SPIs and Message ID counter
+    # into the header and protect the message with the receiver's keys - a request built by another IkeSa object (the successor of a
+    # rekey that is still being negotiated) and sent on this one carries the wrong SPIs, ID 0 and no protection
+    from ..sval import strip_ids as _sid
+    from .. import tq as _tq
+    me = ('param', 'self')
+    n = 0
+    for fi in ikesa.methods.values():
+        if not isinstance(fi.node, ast.FunctionDef):
+            continue
+        sv = ctx.sval(fi)
+        for tg, v, pc, st, _ in sv.stores:
+            if _sid(tg) != ('attr', me, 'request'):
+                continue
+            v = _sid(v)
+            gens = [x for x in _tq.find(v, lambda y: _tq.is_call(y) and isinstance(y[1], str) and y[1].split('.')[-1] in (
+                'generate_request', 'handle_invalid_ke'))]
+            if not gens:
+                continue
+            n += 1
+            ctx.check(all(g[2] == me for g in gens), rule, '%s: the request retained in self.request is generated by this IKE_SA itself '
+                      '(receiver of %s is self)' % (fi.name, gens[0][1].split('.')[-1]), key=(rule, fi.qual, 'request-generator-receiver'),
+                      site=ctx.site(fi, st), detail={'receiver': _tq.text(gens[0][2], 80)})
+    ctx.floor(rule + ' requests bound to self.request by value', n, 8, rule=rule)
+
+
 def run(ctx):
     prog, res = ctx.prog, ctx.res
     esc = ctx.escape('engine', kills=common.engine_kills(ctx))
